@@ -46,6 +46,28 @@ where
         run.count("ans_coders_reused_after_clear", 1);
     }
     let mut reference = RefAns::new(w, s);
+    // encoding on top of imported words / raw binary data must follow the format as well
+    match rng.below(6) {
+        0 => {
+            let data: Vec<M::W> = crate::props::c01::gen_words(rng, 8, false);
+            coder = AnsCoder::from_binary(data.clone()).unwrap_infallible();
+            reference = RefAns::from_binary(w, s, &words_u128(&data));
+            run.count("ans_starts_from_binary", 1);
+        }
+        1 => {
+            let data: Vec<M::W> = crate::props::c01::gen_words(rng, 8, true);
+            if let Ok(c) = AnsCoder::from_compressed(data.clone()) {
+                coder = c;
+                reference = RefAns::from_compressed(w, s, &words_u128(&data)).unwrap();
+                run.count("ans_starts_from_compressed", 1);
+            }
+        }
+        _ => {}
+    }
+    if coder.state().as_u() != reference.head || words_u128(coder.bulk()) != reference.bulk {
+        run.violation("format", "C06/ans-ref-diverges", format!("W={} S={} after import: library head {:#x} bulk {:?} vs reference head {:#x} bulk {:?}", <M::W as Num>::NAME, S::NAME, coder.state().as_u(), words_u128(coder.bulk()), reference.head, reference.bulk));
+        return;
+    }
     let mut log: Vec<(u32, u128, u128)> = Vec::new();
     let mut flushes = 0u64;
     let mut edge_hits = 0u64;
